@@ -110,6 +110,60 @@ pub fn check(a: &Analysis, aux: &mut Aux, t: &mut Tally) -> Vec<Violation> {
             }
         }
     }
+    // ---- streams: a connection whose bytes up to some segment are exactly one complete valid
+    // request, with no signature completed before that segment (the request arrives whole, or its
+    // signature is cut by the segmentation), is answered there by the signature's responder
+    for st in a.tcp_streams() {
+        if st.dirty || st.segs.is_empty() {
+            continue;
+        }
+        for (k, sg) in st.segs.iter().enumerate().take(30) {
+            let prefix = &st.stream[..sg.off + sg.len];
+            match sig::decide(&sigs, prefix, false) {
+                Decision::Pending => continue,
+                Decision::Match { sig: ks, .. } => {
+                    let s = &sigs[ks];
+                    // nothing but the request itself may have been delivered (no empty segments,
+                    // whose handling inside a signature is C11's concern)
+                    if st.segs[..=k].iter().any(|x| x.len == 0) {
+                        break;
+                    }
+                    if !valid_request(s, prefix, true) {
+                        break;
+                    }
+                    let got = sg.reply_app.as_deref().and_then(identify_reply);
+                    t.judged(Verdict::Reply, format!("tcp-served|{}|cuts{}", s.name, k.min(3)));
+                    if k > 0 {
+                        t.probe("valid-request-with-signature-cut-by-segmentation");
+                    }
+                    match got {
+                        Some(g) if family(g) == family(s.app) => {}
+                        Some(g) => v.push(Violation {
+                            prop: "C10",
+                            rule: "wrong-responder".into(),
+                            key: format!("wrong-responder:tcp:{}->{:?}", s.name, g),
+                            step: a.steps[sg.si].idx,
+                            detail: format!("the connection's leading bytes complete {} first, but the {:?} responder answered", s.name, g),
+                        }),
+                        None => v.push(Violation {
+                            prop: "C10",
+                            rule: "valid-request-not-served".into(),
+                            key: format!("not-served:tcp:{}:{}", s.name, if k == 0 { "whole" } else { "signature-cut" }),
+                            step: a.steps[sg.si].idx,
+                            detail: format!(
+                                "complete valid request of {} bytes whose leading bytes complete {} (delivered in {} segment(s), signature completed by the last one) was not answered by that responder",
+                                prefix.len(),
+                                s.name,
+                                k + 1
+                            ),
+                        }),
+                    }
+                    break;
+                }
+                _ => break,
+            }
+        }
+    }
     // ---- streams: replay sampled flows on the second node, probing the identified protocol
     if aux.samples == 0 {
         return v;
